@@ -369,6 +369,12 @@ impl<Endpoint: Ord + Clone> BlockHandler<Endpoint> {
                 // not larger than our max block size.
                 let negotiated_block_size =
                     min(request_block.size(), max_block_size);
+                if negotiated_block_size == 0 {
+                    return Err(HandlingError::internal(format!(
+                        "Message too large to encode at any block size: {} leaves no room after {}",
+                        max_total_message_size, max_non_payload_size
+                    )));
+                }
 
                 let reply_start_offset =
                     usize::from(request_block.num) * request_block.size();
